@@ -1,8 +1,12 @@
-HOOK_COMMITS = ["4bf1060"]
+HOOK_COMMITS = ["4bf1060"]  # fix: commits e843be5 c06c015 0900edf 3f63130 are unguarded repairs, not hooks
 MC_NOTE = ("Trusted: CPython 3.12, numpy/pandas/pydantic as installed, the laws of the RNG primitives "
            "(random.sample uniform, random.choices / np.random.choice categorical), the reference models in engine/refs.py. "
            "Small-scope bounds as stated in the evidence file; nothing is claimed beyond them.")
 TABLE = {
+ "C01": dict(level="model_checking", engine="chooser+lockstep",
+   technique="exhaustive exploration of all RNG outcomes of every rule on bounded profile families; per-round invariants + reference tie oracles",
+   text="Every rule class x every profile of the stated families x every configuration x every outcome of every random draw is executed on the real code. On every path: termination within a step horizon, exactly m winners, the elected/remaining/eliminated partition and status monotonicity at every recorded round, and exception discipline (ValueError exactly when a reference model reports a tie straddling the last seat with tiebreak None; nothing else escapes). Genuine defects found are listed in known_findings.json by signature.",
+   note=MC_NOTE),
  "C02": dict(level="model_checking", engine="chooser+lockstep",
    technique="exhaustive exploration of every RNG outcome of the real STV code + lock-step refinement against a reference transition system",
    text="Every profile of a stated finite family x every configuration x every outcome of every random tiebreak / random transfer is executed on the real code; each recorded round must be a legal step of a nondeterministic reference model of the documented count (exact rationals), and the set of complete traces must equal the reference's. This covers all branches of all tiebreaks, which no seeded test can.",
